@@ -1,5 +1,13 @@
 """C04 — energy ledger: no overdraft, exact charging, free failures, bounded total spend."""
+import contextlib
+import hashlib
+import io
 import itertools
+import json
+import random
+import sys
+import threading as _threading
+import time as _time
 
 from . import common
 from .common import Check, Violation, cz, cbool, clist, ctuple, cnat
@@ -12,6 +20,12 @@ NADHS = [0, 0, 3, 5, 8]
 DEBTS = [0, 0, 5, 10, 10, 20, 100]
 RATES = [0.1, 0.1, 0.0, 0.5, 0.25, 1.0, 0.3, 0.05]
 PRIOS = [0, 0, 0, 4, 5, 9, 10, 12]
+# calls that the property does not list as operations but that a client may make on the same objects in between:
+# they must return normally and leave every later observation as it would have been without them.  They produce no
+# observation row and are stripped from the model's input (coq_case), so the correspondence check itself demands
+# that transparency; the monitor demands "does not raise, does not touch the ledger" directly.
+TRANSPARENT = ("report", "txs", "stats", "stop")
+TX_CAP = 1000   # _record_transaction keeps the last 1000 entries
 
 
 def _etype(mod, t):
@@ -59,13 +73,101 @@ def _apply(mod, stores, op):
         return stores[op[1]].apply_debt_interest()
     if k == "reset":
         return stores[op[1]].reset()
+    if k == "report":
+        return stores[op[1]].get_report()
+    if k == "txs":
+        return stores[op[1]].get_transactions(op[2]) if op[2] is not None else stores[op[1]].get_transactions()
+    if k == "stats":
+        return stores[op[1]].get_statistics()
+    if k == "stop":
+        return stores[op[1]].stop_regeneration()
     raise ValueError(op)
 
 
-def _mk_stores(mod, cfgs):
-    return [mod.ATP_Store(budget=c["budget"], gtp_budget=c["gtp"], nadh_reserve=c["nadh"],
-                          regeneration_rate=0.0, max_debt=c["max_debt"], debt_interest=c["rate"],
-                          silent=True) for c in cfgs]
+class _RegenShim:
+    """Stands in for the names `threading` and `time` of metabolism.py while a store with regeneration_rate > 0 is
+    constructed and stopped (module-attribute rebinding, as for every clock here).  The regeneration thread's
+    `time.sleep(1.0)` becomes a wait on that very store's stop event: the virtual second never elapses on its own, so
+    the thread cannot tick, and stop_regeneration() ends it at once.  Everything else is the real module."""
+
+    def __init__(self):
+        self.last_event = {}    # constructing thread -> the Event it made last (ATP_Store.__init__: _stop_regeneration)
+        self.stop_of = {}       # regeneration thread -> that event
+        self.threads = []
+        shim = self
+
+        class Threading:
+            def __getattr__(self, name):
+                return getattr(_threading, name)
+
+            def Event(self):
+                ev = _threading.Event()
+                shim.last_event[_threading.get_ident()] = ev
+                return ev
+
+            def Thread(self, *a, **kw):
+                th = _threading.Thread(*a, **kw)
+                shim.stop_of[th] = shim.last_event.get(_threading.get_ident())
+                shim.threads.append(th)
+                return th
+
+        class Time:
+            def __getattr__(self, name):
+                return getattr(_time, name)
+
+            def sleep(self, dt):
+                ev = shim.stop_of.get(_threading.current_thread())
+                if ev is None:
+                    _time.sleep(dt)
+                else:
+                    ev.wait(30.0)
+
+        self.threading, self.time = Threading(), Time()
+
+
+def _mk_stores(mod, cfgs, hooklog=None):
+    """Fresh stores.  Optional configuration keys (absent = as before): `silent` (default True), `hook` (a benign
+    on_state_change callback that records the new state and reads the store through its accessors), `regen` (> 0:
+    constructed with that regeneration_rate and stop_regeneration()-ed before the thread's first tick)."""
+    stores = []
+    for k, c in enumerate(cfgs):
+        cb = None
+        cell = []
+        if c.get("hook"):
+            def cb(state, cell=cell, k=k):
+                seen = [state.value]
+                if cell:
+                    st = cell[0]
+                    seen += [st.get_state().value, st.get_balance(), st.get_debt(), st.get_statistics()["total_consumed"],
+                             st.get_report().debt, len(st.get_transactions(3))]
+                if hooklog is not None:
+                    hooklog.append((k, seen))
+        kw = dict(budget=c["budget"], gtp_budget=c["gtp"], nadh_reserve=c["nadh"], regeneration_rate=0.0,
+                  max_debt=c["max_debt"], debt_interest=c["rate"], on_state_change=cb, silent=c.get("silent", True))
+        if c.get("regen"):
+            kw["regeneration_rate"] = float(c["regen"])
+            shim = _RegenShim()
+            old = (mod.threading, mod.time)
+            mod.threading, mod.time = shim.threading, shim.time
+            st, left = None, []
+            try:
+                st = mod.ATP_Store(**kw)
+                st.stop_regeneration()
+            finally:
+                for th in shim.threads:     # never leave a thread behind: release its virtual sleep
+                    if th.is_alive():
+                        left.append(th)
+                        if shim.stop_of.get(th) is not None:
+                            shim.stop_of[th].set()
+                        th.join(2.0)
+                mod.threading, mod.time = old
+            if left:
+                raise RuntimeError("stop_regeneration() returned while the regeneration thread was still running")
+        else:
+            st = mod.ATP_Store(**kw)
+        cell.append(st)
+        stores.append(st)
+    return stores
 
 
 class C04(Check):
@@ -86,7 +188,14 @@ class C04(Check):
             "13-call alphabet from 8 one-store configurations incl. all-zero capacity; every history of 4 (quick) / 5 (thorough) "
             "calls over {borrow 1,2,3; interest; repay 1,2} on a store with only a credit line of 2; 8% of generator steps "
             "insert a steered loan cycle (borrow to within 0..2 of the limit, apply_debt_interest, regenerate the debt / the "
-            "interest / one less / more, borrow again exactly at / just past the room). non-trivial = the history contains a "
+            "interest / one less / more, borrow again exactly at / just past the room). Client-side variation that must be "
+            "invisible (decided per history by a PRNG seeded from its content; the model's input is the undecorated history): "
+            "60% of generated and a third of enumerated histories have stores with silent=False (stdout captured), a benign "
+            "on_state_change callback that reads the store through every accessor, or (12% of those) regeneration_rate > 0 with "
+            "stop_regeneration() before the thread's first tick (virtual clock); get_report / get_transactions(limit incl. 0, "
+            "default, > cap) / get_statistics / stop_regeneration calls are interleaved between operations (no observation row, "
+            "stripped from the model's input; the monitor demands no raise and an untouched ledger). 2 (quick) / 8 (thorough) "
+            "histories of ~1100 calls push the transaction log past its cap of 1000 entries and go on. non-trivial = the history contains a "
             "consume that is not a plain deduction (top-up, debt, refusal, gate) or a transfer; distinct by case content")
     LEVEL_TEXT = ("Coq theorems over every system of stores, every configuration with non-negative capacities and every "
                   "finite history with non-negative amounts (no bound on length or magnitudes), for every state classifier "
@@ -104,11 +213,16 @@ class C04(Check):
                "classifier and an arbitrary non-negative interest function, so no float reasoning is trusted in the proofs",
                "modelled not verified: Python int -> float conversion is exact (all generated magnitudes < 2^53); "
                "`with self._lock` sections are atomic (single-threaded histories; interleavings are C05)",
-               "the background regeneration thread is off (regeneration_rate=0); its effect is the Regenerate operation",
-               "transaction log, _operations_count, _failed_operations, _total_regenerated, get_report are not modelled"]
+               "the background regeneration thread never ticks: regeneration_rate=0, or > 0 with stop_regeneration() called "
+               "while the thread is in its first (virtual) sleep - metabolism.py's names `time`/`threading` are rebound so that "
+               "the sleep waits on the store's own stop event; the thread's effect is the Regenerate operation",
+               "transaction log, _operations_count, _failed_operations, _total_regenerated, get_report, printing and the "
+               "on_state_change callback are not modelled: they are exercised on the implementation and must be invisible "
+               "(same observations as the model computes without them)"]
     ASSUMPTIONS = ["capacities (budget, gtp_budget, nadh_reserve) and max_debt are >= 0; every cost/amount argument is >= 0",
                    "debt_interest >= 0 (int(debt*rate) >= 0); with a negative rate `0 <= debt` is plainly false",
-                   "single-threaded histories; on_state_change callback not supplied"]
+                   "single-threaded histories; an on_state_change callback, where supplied, returns normally and only reads the "
+                   "store (callbacks that raise: extra_checks demands the ledger part only)"]
 
     def translate(self):
         from translators import c04_gen
@@ -160,8 +274,94 @@ class C04(Check):
                     C04._gen_blind = True
             if case is None:
                 case = self._gen_one(rng, None)
-            out.append(case)
+            out.append(self._decorate(case))
+        # histories that push the transaction log past its cap of 1000 entries (drawn after the others, so the
+        # stream of ordinary histories is what it was)
+        for _ in range(min(8, n // 700)):
+            out.append(self._gen_long(rng))
         return out
+
+    # -- widening: client-side variation that must be invisible ------------------
+    def _decorate(self, case, config_only=False):
+        """Client-side variation of a history, decided by a PRNG seeded from the history's content (the base
+        histories are exactly those generated before): stores with silent=False (the default of the constructor; stdout is
+        captured), a benign on_state_change callback, a regeneration thread that is started and stopped before its
+        first tick, and read-only / housekeeping calls (get_report, get_transactions, get_statistics,
+        stop_regeneration) between the operations."""
+        h = hashlib.sha1(json.dumps(case, sort_keys=True).encode()).hexdigest()
+        rng = random.Random("C04:decor:" + h)
+        if rng.random() < (0.67 if config_only else 0.40):
+            return case
+        stores = [dict(c) for c in case["stores"]]
+        for c in stores:
+            if rng.random() < 0.65:
+                c["silent"] = False
+            if rng.random() < 0.5:
+                c["hook"] = True
+        if rng.random() < 0.12:
+            stores[rng.randrange(len(stores))]["regen"] = rng.choice([0.5, 1.0, 2.5, 7.0])
+        if config_only:
+            return {**case, "stores": stores}
+        p = rng.choice([0.0, 0.1, 0.25])
+        ops = []
+        for op in case["ops"]:
+            while rng.random() < p:
+                ops.append(self._transparent_op(rng, len(stores)))
+            ops.append(op)
+        if p > 0 and rng.random() < 0.5:
+            ops.append(self._transparent_op(rng, len(stores)))
+        return {"stores": stores, "ops": ops}
+
+    def _transparent_op(self, rng, ns):
+        i = rng.randrange(ns)
+        k = rng.choice(["report", "report", "txs", "txs", "stats", "stop"])
+        return ["txs", i, rng.choice([None, 0, 1, 5, 100, 1000, 5000])] if k == "txs" else [k, i]
+
+    def _gen_long(self, rng):
+        """> 1000 recorded transactions on store 0 without a reset in between (every consume of priority >= 10 passes
+        both gates and records exactly one entry, success or failure), then a short tail of arbitrary calls."""
+        ns = rng.choice([1, 2])
+        cfgs = [{"budget": rng.choice([20, 50, 100]), "gtp": rng.choice([0, 10]), "nadh": rng.choice([0, 8]),
+                 "max_debt": rng.choice([0, 20, 100]), "rate": rng.choice(RATES),
+                 "silent": rng.random() < 0.5, "hook": rng.random() < 0.7} for _ in range(ns)]
+        target = TX_CAP + rng.choice([1, 2, 17])
+        ops, rec = [], 0
+        while rec < target:
+            r = rng.random()
+            t = rng.choice(["ATP", "ATP", "ATP", "GTP", "NADH"])
+            if r < 0.90:
+                ops.append(["consume", 0, rng.choice([0, 0, 0, 1, 1, 2, 5, 30]), t, rng.random() < 0.6, rng.choice([10, 12])])
+                rec += 1
+            elif r < 0.95:
+                ops.append(["regen", 0, rng.choice([1, 5, 20, 200]), t])
+            elif r < 0.96:
+                ops.append(["interest", 0])
+            elif r < 0.97:
+                ops.append(["convert", 0, rng.choice([1, 3, 100])])
+            elif r < 0.98:
+                ops.append(rng.choice([["dorm", 0], ["wake", 0]]))
+            elif r < 0.99 and ns > 1:
+                ops.append(rng.choice([["transfer", 1, 0, rng.choice([1, 5]), t], ["transfer", 0, 1, rng.choice([1, 5]), t],
+                                       ["consume", 1, rng.choice([1, 5]), t, True, 10]]))
+            else:
+                ops.append(self._transparent_op(rng, ns))
+            if rec in (TX_CAP - 1, TX_CAP, TX_CAP + 1) and ops[-1][0] == "consume":
+                ops += [["report", 0], ["txs", 0, rng.choice([None, 0, 1000, 5000])]]
+        ops += [["report", 0], ["txs", 0, 5000]]
+        for _k in range(rng.choice([4, 8, 12])):
+            r = rng.random()
+            t = rng.choice(["ATP", "GTP", "NADH"])
+            i = rng.randrange(ns)
+            if r < 0.5:
+                ops.append(["consume", i, rng.choice([0, 1, 5, 30, 200]), t, rng.random() < 0.6, rng.choice(PRIOS)])
+            elif r < 0.7:
+                ops.append(["regen", i, rng.choice([1, 20, 200]), t])
+            elif r < 0.8:
+                ops.append(["reset", i])
+            else:
+                ops.append(rng.choice([["interest", i], ["wake", i], ["dorm", i], ["convert", i, 3]]))
+        ops += [["report", 0], ["stats", 0]]
+        return {"stores": cfgs, "ops": ops}
 
     def _gen_one(self, rng, M):
         """One history; amounts are steered to boundaries of the state the real stores have reached."""
@@ -252,47 +452,70 @@ class C04(Check):
         cfg = {"budget": 0, "gtp": 0, "nadh": 0, "max_debt": 2, "rate": 1.0}
         for combo in itertools.product(loan, repeat=top + 2):
             out.append({"stores": [cfg], "ops": [list(o) for o in combo]})
-        return out
+        # a third of the enumerated histories run on stores with silent=False / a benign state-change callback / a
+        # stopped regeneration thread (same calls; the model's input is unchanged)
+        return [self._decorate(c, config_only=True) for c in out]
 
     # -- implementation ----------------------------------------------------
     def run_impl(self, case):
         # one watchdog per history (a call that blocks on the store's lock is the observation [-999]);
         # after a few hangs the patience drops so that a deadlocking tree is still reported quickly
+        out = sys.stdout   # _run_history captures stdout; a history that hangs would leave it captured
         try:
-            return common.call_with_watchdog(lambda: self._run_history(case), 5.0 if C04._hangs < 3 else 0.3)
+            return common.call_with_watchdog(lambda: self._run_history(case),
+                                             (5.0 + len(case["ops"]) / 100.0) if C04._hangs < 3 else 0.3)
         except common.Hang:
             C04._hangs += 1
             raise
+        finally:
+            sys.stdout = out
 
     def _run_history(self, case):
         from operon_ai.state import metabolism as M
         _snap.mod = M
-        stores = _mk_stores(M, case["stores"])
-        snaps = [_snap(s) for s in stores]
-        init = snaps
-        obs = [[0, 0] + [x for s in snaps for x in _row(s)]]
-        steps = []
-        for op in case["ops"]:
-            pre = snaps
-            exc = None
-            try:
-                r = _apply(M, stores, op)
-            except Exception as e:  # the property: no operation raises
-                r = None
-                exc = f"{type(e).__name__}: {e}"
+        buf = io.StringIO()
+        hooklog = []
+        with contextlib.redirect_stdout(buf):   # stores with silent=False print; nothing else may differ
+            stores = _mk_stores(M, case["stores"], hooklog)
             snaps = [_snap(s) for s in stores]
-            if exc is not None:
-                ro = [3, 0]
-            elif r is None:
-                ro = [0, 0]
-            elif isinstance(r, bool):
-                ro = [1, int(r)]
-            elif isinstance(r, int):
-                ro = [2, r]
-            else:
-                ro = [5, 0]
-            obs.append(ro + [x for s in snaps for x in _row(s)])
-            steps.append({"op": op, "ret": r, "exc": exc, "pre": pre, "post": snaps})
+            init = snaps
+            obs = [[0, 0] + [x for s in snaps for x in _row(s)]]
+            steps = []
+            for op in case["ops"]:
+                pre = snaps
+                exc = None
+                buf.seek(0)
+                buf.truncate()
+                nhook = len(hooklog)
+                try:
+                    r = _apply(M, stores, op)
+                except Exception as e:  # the property: no operation raises
+                    r = None
+                    exc = f"{type(e).__name__}: {e}"
+                snaps = [_snap(s) for s in stores]
+                step = {"op": op, "ret": r, "exc": exc, "pre": pre, "post": snaps,
+                        "printed": bool(buf.getvalue()), "hook_calls": len(hooklog) - nhook}
+                if op[0] in TRANSPARENT:
+                    # no observation row: the model never sees these calls
+                    step["ret"] = None
+                    if exc is None and op[0] == "report":
+                        step["tx_count"] = getattr(r, "transactions_count", None)
+                    elif exc is None and op[0] == "txs":
+                        step["tx_count"] = len(r)
+                    steps.append(step)
+                    continue
+                if exc is not None:
+                    ro = [3, 0]
+                elif r is None:
+                    ro = [0, 0]
+                elif isinstance(r, bool):
+                    ro = [1, int(r)]
+                elif isinstance(r, int):
+                    ro = [2, r]
+                else:
+                    ro = [5, 0]
+                obs.append(ro + [x for s in snaps for x in _row(s)])
+                steps.append(step)
         return obs, {"steps": steps, "init": init}
 
 
@@ -324,7 +547,8 @@ class C04(Check):
                 pre = [_snap(x) for x in stores]
                 exc = None
                 try:
-                    _apply(M, stores, op)
+                    with contextlib.redirect_stdout(io.StringIO()):
+                        _apply(M, stores, op)
                 except Exception as e:  # noqa
                     exc = f"{type(e).__name__}: {e}"
                     raised += 1
@@ -357,6 +581,8 @@ class C04(Check):
         ops = []
         for op in case["ops"]:
             k = op[0]
+            if k in TRANSPARENT:      # invisible to the model: its observations must not depend on them
+                continue
             if k == "consume":
                 _, i, cost, t, allow, prio = op
                 ops.append(f"Local {cnat(i)} (Consume {cz(cost)} {t} {cbool(allow)} {cz(prio)})")
@@ -394,6 +620,12 @@ class C04(Check):
             # no operation raises
             if st["exc"] is not None:
                 return Violation("C04/raises", f"{where} raised {st['exc']}")
+            if kind in TRANSPARENT:
+                # not one of the property's operations: it must not raise (above) and must not act on the ledger
+                if pre != post:
+                    j = [x for x in range(n) if pre[x] != post[x]][0]
+                    return Violation("C04/frame", f"{where} (a read-only / housekeeping call) changed store {j}: {pre[j]} -> {post[j]}")
+                continue
             # the code only borrows within the limit: a spend that raised the debt leaves it <= max_debt
             if kind == "consume" and post[i]["debt"] > pre[i]["debt"]:
                 if ret is not True:
@@ -500,6 +732,18 @@ class C04(Check):
             op, ret, pre, post = st["op"], st["ret"], st["pre"], st["post"]
             kind, i = op[0], op[1]
             a, b = pre[i], post[i]
+            if st.get("printed"):
+                tags.add("printed:" + kind)
+            if st.get("hook_calls"):
+                tags.add("hook:fired")
+            if kind in TRANSPARENT:
+                tags.add("between:" + {"report": "get_report", "txs": "get_transactions", "stats": "get_statistics",
+                                       "stop": "stop_regeneration"}[kind])
+                if st.get("tx_count") == TX_CAP:
+                    tags.add("txlog:at-cap")
+                if st["exc"]:
+                    tags.add("raised")
+                continue
             for j in range(len(post)):
                 if post[j]["debt"] < pre[j]["debt"] and phase.get(j, 0) >= 1:
                     phase[j] = 2
@@ -564,6 +808,14 @@ class C04(Check):
             ks.append("zero-capacity-store")
         if any(c["max_debt"] == 0 for c in case["stores"]):
             ks.append("max_debt=0")
+        if any(not c.get("silent", True) for c in case["stores"]):
+            ks.append("cfg:silent=False")
+        if any(c.get("hook") for c in case["stores"]):
+            ks.append("cfg:on_state_change-callback")
+        if any(c.get("regen") for c in case["stores"]):
+            ks.append("cfg:regeneration-thread-started-and-stopped")
+        if len(case["ops"]) > TX_CAP:
+            ks.append("history>1000-calls")
         return ks + sorted(self._branches(trace))
 
     def shrink(self, case, pred):
